@@ -94,6 +94,12 @@ func init() {
 func directedMixes() [][]string {
 	return [][]string{
 		// overlapping Close calls (both fire at the same instant), the packet loop and background still running
+		// the notification channel with exactly one free slot / full and NO consumer: two legitimate senders
+		// (packet loop Notify, background purge -> makeOffline) compete for the slot while a prober needs the
+		// session write lock; a sender that blocks with the lock held stalls the prober, Close, Capture
+		{"@slot", "Parse.fast", "Notify", "purge", "purge", "Close"},
+		{"@slot", "Parse.fast", "Parse.slow", "Notify", "purge", "purge", "Capture", "Release"},
+		{"@full", "Parse.fast", "Notify", "purge", "Close"},
 		{"Close", "Close", "Notify", "purge", "Parse.fast"},
 		{"arp.Close", "arp.Close", "arp.ProcessPacket", "arp.StartHunt", "arp.IsHunting"},
 		{"icmp6.Close", "icmp6.Close", "icmp6.ProcessPacket.RA", "icmp6.StartHunt", "icmp6.StopHunt"},
@@ -335,11 +341,34 @@ func childMain() {
 		}
 	}
 
-	// consumer of the notification channel ("the caller is reading")
-	go func() {
-		for range c.s.C {
+	mode := ""
+	for _, o := range mix {
+		if strings.HasPrefix(o, "@") {
+			mode = o
 		}
-	}()
+	}
+	var stuck int32
+	switch mode {
+	case "":
+		// consumer of the notification channel ("the caller is reading")
+		go func() {
+			for range c.s.C {
+			}
+		}()
+	case "@full", "@slot":
+		// nobody reads: the channel is pre-filled to capacity (@full) or capacity-1 (@slot)
+		n := cap(c.s.C)
+		if mode == "@slot" {
+			n--
+		}
+		for len(c.s.C) < n {
+			c.s.C <- packet.Notification{}
+		}
+		if mode == "@slot" {
+			go slotter(c, &stuck)
+			base++
+		}
+	}
 
 	// the recording connection is emptied regularly (the DHCP handler can emit bursts)
 	go func() {
@@ -471,6 +500,46 @@ func childMain() {
 	}
 	c.emit("done", "", "")
 	res.Close()
+}
+
+// slotter keeps the unread notification channel at "exactly one free slot": whenever it is full it takes
+// ONE notification out, then checks that the session write lock can still be taken (Release of an unknown
+// MAC).  A sender blocked on the channel with the session lock held makes that probe hang: reported as
+// watchdog:session-lock-stuck (then the channel is drained so that the child can end).
+func slotter(c *ctx, stuck *int32) {
+	probeMAC := net.HardwareAddr{0x02, 0xfe, 0xfe, 0xfe, 0xfe, 0xfe}
+	for {
+		if len(c.s.C) >= cap(c.s.C) {
+			select {
+			case <-c.s.C:
+			default:
+			}
+		}
+		time.Sleep(2 * time.Millisecond)
+		done := make(chan struct{})
+		go func() { c.s.Release(probeMAC); close(done) }()
+		select {
+		case <-done:
+		case <-time.After(4 * time.Second):
+			buf := make([]byte, 1<<20)
+			n := runtime.Stack(buf, true)
+			c.emit("key", "watchdog:session-lock-stuck", "the session write lock could not be taken for 4 s with the notification channel unread: "+summarizeStacks(string(buf[:n])))
+			atomic.StoreInt32(stuck, 1)
+			for {
+				select {
+				case _, ok := <-c.s.C:
+					if !ok {
+						return
+					}
+				case <-time.After(10 * time.Second):
+					return
+				}
+			}
+		}
+		if atomic.LoadInt32(&c.closed) == 1 {
+			return
+		}
+	}
 }
 
 var reGoroutineHdr = regexp.MustCompile(`(?m)^goroutine \d+ \[([^\]]*)\]:\n(\S+)`)
